@@ -625,6 +625,17 @@ class Frame:
                 return Ptr(('local', lv[1]), lv[2], 1)
             if op == '*':
                 return self.load(self.lvalue(n))
+            if op in ('++', '--'):
+                lv = self.lvalue(n['inner'][0])
+                old = self.load(lv)
+                if isinstance(old, Ptr):
+                    new = Ptr(old.base, old.off + (old.elem if op == "++" else -old.elem), old.elem)
+                elif isinstance(old, BV):
+                    new = self.binop('+' if op == '++' else '-', old, BV.const(1, old.width, old.signed), n)
+                else:
+                    raise Unsupported('unary %s on this operand' % op)
+                self.store(lv, new)
+                return old if n.get('isPostfix') else new
             v = self.rvalue(n['inner'][0])
             if op == '~':
                 return BV([bnot(b) for b in v.bits], v.signed)
@@ -911,7 +922,42 @@ class Frame:
             self.exec_stmt(inn[1])
             self.guard = old
             return
-        if k in ('WhileStmt', 'ForStmt', 'DoStmt', 'SwitchStmt', 'GotoStmt'):
+        if k in ('WhileStmt', 'ForStmt', 'DoStmt'):
+            # a loop whose condition is a constant every time it is evaluated (a counted copy of a fixed number of
+            # octets) is executed as it stands
+            if self.guard != ONE:
+                raise Unsupported('loop under a symbolic condition')
+            if any(cast.kind(x) in ('BreakStmt', 'ContinueStmt', 'GotoStmt') for x in cast.walk(s)):
+                raise Unsupported('loop with break/continue')
+            parts = s['inner']
+            init = inc = None
+            if k == 'ForStmt':
+                init, cond, inc, body = parts[0], parts[2], parts[3], parts[4]
+            elif k == 'WhileStmt':
+                cond, body = parts[0], parts[1]
+            else:
+                body, cond = parts[0], parts[1]
+            if init is not None and cast.kind(init) is not None:
+                self.exec_stmt(init)
+            n_it = 0
+            while True:
+                if k != 'DoStmt' or n_it > 0:
+                    if cond is not None and cast.kind(cond) is not None:
+                        c = self.nonzero(self.rvalue(cond)).bits[0]
+                        if not is_const(c):
+                            raise Unsupported('loop condition depends on the input')
+                        if not c[0]:
+                            break
+                n_it += 1
+                if n_it > 256:
+                    raise Unsupported('loop runs more than 256 times')
+                self.exec_stmt(body)
+                if self.returned:
+                    raise Unsupported('return inside a loop')
+                if inc is not None and cast.kind(inc) is not None:
+                    self.rvalue(inc)
+            return
+        if k in ('SwitchStmt', 'GotoStmt'):
             raise Unsupported('control flow %s' % k)
         # expression statement
         self.rvalue(s)
